@@ -68,6 +68,18 @@ fn default_history_size() -> usize {
 
 impl MetricsServer {
     pub fn init(&mut self) -> Result<(), Error> {
+        // both values are handed to code that panics on bad input when the server is started
+        ensure!(
+            HeaderValue::from_str(&self.cors).is_ok(),
+            "metrics.cors is not a valid header value: {:?}",
+            self.cors
+        );
+        ensure!(
+            self.api_prefix.starts_with('/')
+                && !self.api_prefix.contains(|c: char| c == '*' || c == ':' || c.is_whitespace()),
+            "metrics.apiPrefix must be a plain path starting with '/': {:?}",
+            self.api_prefix
+        );
         if let Some(ui) = &self.ui {
             #[cfg(feature = "embedded-ui")]
             if ui == "<embedded>" {
